@@ -410,6 +410,7 @@ func diffItem(x, y *Item, o DiffOpts) []string {
 			p.FileURL, q.FileURL = relURL(p.FileURL, o.RootA), relURL(q.FileURL, o.RootB)
 			if o.IgnoreResultTS {
 				p.CreatedAt, q.CreatedAt = "", ""
+				p.Mtime, q.Mtime = "", ""
 			}
 			if p != q {
 				out = append(out, fmt.Sprintf("%s: result[%d] %+v != %+v", x.ID, i, p, q))
